@@ -29,9 +29,21 @@ def build(spec, prepared=None):
 
 def observe(cls, cmd):
     dec = cls.unmarshall_cdb(cmd.cdb)
+    # what the command object itself decodes from its (deterministically filled) data-in buffer, with no arguments and with the
+    # arguments READ CD-style decoders take — whatever it is (a result or an exception), it must not depend on other commands
+    res = []
+    if cmd.datain is not None:
+        for i in range(min(len(cmd.datain), 4096)):
+            cmd.datain[i] = (i * 37 + 11) & 0xFF
+    for kw in ({}, {"lba": 16, "tl": 1, "est": 2, "mcsb": 0x17}):
+        try:
+            cmd.unmarshall(**kw)
+            res.append(repr(cmd.result)[:4000])
+        except Exception as e:  # noqa
+            res.append("exn:" + type(e).__name__)
     return dict(cdb=list(cmd.cdb), dec=sorted((k, v if isinstance(v, int) else list(v)) for k, v in dec.items()),
                 enc=list(cls.marshall_cdb(dec)), out=None if cmd.dataout is None else len(cmd.dataout),
-                inn=None if cmd.datain is None else len(cmd.datain))
+                inn=None if cmd.datain is None else len(cmd.datain), res=res)
 
 
 def safe_observe(cls, cmd):
@@ -45,7 +57,12 @@ def sequential(hist):
     """hist: list of specs; after every construction, re-observe ALL earlier commands"""
     made = []
     for i, spec in enumerate(hist):
-        cls, cmd = build(spec)
+        try:
+            cls, cmd = build(spec)
+        except Exception:  # noqa
+            if spec.get("variant"):
+                continue           # other argument values that this class refuses: not a command, nothing to interfere with
+            raise
         base = safe_observe(cls, cmd)
         made.append((cls, cmd, base, i))
         for cls2, cmd2, base2, j in made[:-1]:
